@@ -41,8 +41,12 @@ func c03Path(r *Rng, plainFinal bool) string {
 func c03GenOps(r *Rng) Sx {
 	n := 4 + r.Intn(22)
 	var ops []Sx
+	moved := false // after a chdir nothing is removed or renamed (a removed working directory is outside the model)
 	for i := 0; i < n; i++ {
 		k := r.Intn(100)
+		if moved && k >= 60 && k < 80 {
+			k = 40
+		}
 		if i < 6 { // build something first
 			k = r.Intn(40)
 		}
@@ -90,6 +94,7 @@ func c03GenOps(r *Rng) Sx {
 		case k < 98:
 			ops = append(ops, L(N(17), S(c03Path(r, false)), S(Pick(r, c03XKeys)), B(fillContent(r, r.Intn(4)))))
 		default:
+			moved = true
 			ops = append(ops, L(N(18), S(c03Path(r, false))))
 		}
 	}
